@@ -27,7 +27,7 @@ func init() {
 			"(elected) in runTransfer the hand-over send into the channel runTransfer itself receives from is additionally reachable only through a successful atomic CompareAndSwap (one primary connection, a second winner closes itself); " +
 			"(elect-after-auth) the CompareAndSwap itself is reached only past that authentication; (authenticated-kept) a connection past its authentication is closed only in the default clause of the select that hands it over; " +
 			"(owned-select) every other clause of a select that hands the connection over closes it; (owned) from the success edge of the Accept/Dial (or the closure entry) every path closes the connection, hands it over or delegates it to a closure that is checked the same way; " +
-			"(failure-continues) an authentication failure on one extra connection does not leave the accept loop: from the failure edge every path reaches the Accept again, or the authentication runs in its own goroutine",
+			"(accept-unbounded) the loop around Accept in acceptExtraConns has no bound that counts accepts (only one that counts authenticated connections, or none); (failure-continues) an authentication failure on one extra connection does not leave the accept loop: from the failure edge every path reaches the Accept again, or the authentication runs in its own goroutine",
 		Run: runAcceptCommit,
 	})
 }
@@ -564,6 +564,105 @@ func runAcceptCommit(c *Ctx) {
 	}
 	if nfail == 0 {
 		c.Bad("failure-continues/none", roots[1].Pos(), "acceptExtraConns does not authenticate its connections")
+	}
+	// (accept-unbounded) the loop that takes connections off the listener is not limited by a count of accepts: the listener also
+	// yields the connections the sender abandoned (their authentication fails), each would use up one of the counted accepts
+	nloop := 0
+	for _, f := range all {
+		if f.Root() != roots[1] {
+			continue
+		}
+		info := f.Info()
+		ast.Inspect(f.Body, func(m ast.Node) bool {
+			if lit, ok := m.(*ast.FuncLit); ok && lit != f.Lit {
+				return false
+			}
+			var body *ast.BlockStmt
+			var cond ast.Expr
+			var isRange bool
+			switch s := m.(type) {
+			case *ast.ForStmt:
+				body, cond = s.Body, s.Cond
+			case *ast.RangeStmt:
+				body, isRange = s.Body, true
+			default:
+				return true
+			}
+			accepts := false
+			InspectNoLits(body, func(x ast.Node) bool {
+				if call, ok := x.(*ast.CallExpr); ok {
+					if fn := Callee(info, call); fn != nil && IsFunc(fn, ModulePath+"/internal/transferquic", "QUICTransport.Accept") {
+						accepts = true
+					}
+				}
+				return true
+			})
+			if !accepts {
+				return true
+			}
+			nloop++
+			key := fmt.Sprintf("accept-unbounded/%s#%d", f.Name, nloop)
+			switch {
+			case isRange:
+				c.Bad(key, m.Pos(), "the accept loop of acceptExtraConns iterates over a fixed range: a connection the sender abandoned in the race (its authentication fails) uses up one iteration, the sender's last extra connection is never accepted and its authentication times out after 10 s")
+			case cond == nil:
+				c.OK(key, m.Pos(), "the accept loop runs until Accept fails (deadline or cancellation)")
+			default:
+				// a condition is fine when it counts successes: it mentions len(<slice of connections>)
+				countsSuccess := false
+				ast.Inspect(cond, func(x ast.Node) bool {
+					if call, ok := x.(*ast.CallExpr); ok && len(call.Args) == 1 {
+						if id, ok := ast.Unparen(call.Fun).(*ast.Ident); ok && id.Name == "len" {
+							if t := info.TypeOf(call.Args[0]); t != nil {
+								if sl, ok := t.Underlying().(*types.Slice); ok && isTConn(sl.Elem()) {
+									countsSuccess = true
+								}
+							}
+						}
+					}
+					return true
+				})
+				// a condition that is not a count at all (acceptCtx.Err() == nil) does not ration accepts either
+				countsIter := false
+				if fs, ok := m.(*ast.ForStmt); ok {
+					counters := map[types.Object]bool{}
+					note := func(x ast.Node) {
+						switch st := x.(type) {
+						case *ast.IncDecStmt:
+							if o := ObjOf(info, st.X); o != nil {
+								counters[o] = true
+							}
+						case *ast.AssignStmt:
+							if st.Tok == token.ADD_ASSIGN || st.Tok == token.SUB_ASSIGN {
+								if o := ObjOf(info, st.Lhs[0]); o != nil {
+									counters[o] = true
+								}
+							}
+						}
+					}
+					if fs.Post != nil {
+						note(fs.Post)
+					}
+					InspectNoLits(fs.Body, func(x ast.Node) bool { note(x); return true })
+					ast.Inspect(cond, func(x ast.Node) bool {
+						if id, ok := x.(*ast.Ident); ok && counters[info.Uses[id]] {
+							countsIter = true
+						}
+						return true
+					})
+				}
+				if !countsIter && !countsSuccess {
+					c.OK(key, m.Pos(), "the accept loop's condition is not a count of accepts")
+					return true
+				}
+				c.Check(countsSuccess, key, m.Pos(), "the accept loop is bounded by the number of authenticated connections",
+					"the accept loop of acceptExtraConns is bounded by `"+types.ExprString(cond)+"`, a count of accepts rather than of authenticated connections: a connection the sender abandoned in the race (closed as race_lost, still in the accept queue) uses up one accept, the sender's last extra connection is never accepted, its authentication times out after 10 s and the receiver returns one connection too few")
+			}
+			return true
+		})
+	}
+	if nloop == 0 {
+		c.Bad("accept-unbounded/none", roots[1].Pos(), "acceptExtraConns has no loop around QUICTransport.Accept")
 	}
 }
 
